@@ -121,3 +121,14 @@ claim("C20",
       "exhaustive per-cycle observation of the sample channels over long runs from several phases, and exhaustive enumeration of routing/volume configurations with paired runs, on the real APU",
       "Pacing: the left/right channels are drained after every machine cycle for 2.3 million cycles from power-on and from 8 further phases (with a sound power cycle there); per cycle at most one left and one right sample, always together, and a single phase must place sample k in cycle floor((phi+95k)/4) for every k of the run; no sample with sound off or without outputs. Routing: NR51 (all 256) x playing-channel subsets (16) x NR50 values: a side with no playing channel routed to it is exactly 0, every sample is finite and in [0,1), and altering only a channel that is not routed to a side leaves that side's sample sequence identical (paired runs). Range: channel volumes 0-15 (three channels) x wave level x NR50 with everything routed.",
       "Samples are observed on the channels handed to audio.New; the speakers wiring of gameboy.New is covered by C26. Quick tier enumerates 1/8 of the NR51 x subset x NR50 product for the non-default NR50 values and 1/3 of the volume cube; the thorough tier enumerates them completely.")
+
+claim("C24",
+      "differential replay of every test ROM under fixed input schedules: twice in-process and once in a separate process, per-frame state hashes compared",
+      "Every non-empty ROM under testdata (about 158) x fixed button schedules is run through the real gameboy.New and runFrame with display, speakers and serial writer attached: twice in this process (with another ROM in between) and once in a separate process; after every frame a hash of registers, all writable memory, ROM-window probes, frame pixels, drained samples, serial bytes and RTC/APU generator state, and finally of the full 64 KiB space and the cartridge RAM dump, must agree between the three runs (60 frames x 2 schedules; thorough 600 frames x 4 schedules).",
+      "This is differential replay, not a state-space search: there is no nondeterministic choice inside the emulator to enumerate, which the check demonstrates rather than assumes. An observed difference is reported without demanding that it reproduces (that is the nature of the defect).",
+      level="exploration")
+
+claim("C26",
+      "differential twin execution of the real runFrame against the documented loop over enumerated start states, exhaustive timer-overflow placement over a frame, and enumerated stop-request scenarios of the real Run",
+      "(a) Twin emulators built by the real gameboy.New from 9 ROMs (timer-, DMA-, OAM-bug-, RTC-, sound- and interrupt-heavy), after 0, 1, 2, 7 (thorough also 30, 120) frames, with audio/video attached or not: one runs the real runFrame, the other the documented loop (17,556 x CPU; video; memory; audio; timer->IF) on its own components, and after each of 3 frames registers, writable memory, frame pixels, drained samples, serial output and RTC/APU progress must be identical, with the RTC sub-second count advanced by exactly 17,556 and the APU clock by 70,224 and exactly one frame handed to the display. (b) A timer overflow is placed in every 5th machine cycle of a frame and in each of the last 300 (thorough: every cycle): the timer request must be in IF afterwards. (c) Run: close request at frame n, context cancelled inside frame n or before Run (n = 0..4), video and audio attached or not: at most one further frame, Run returns, display and speakers each released exactly once, no panic.",
+      "The stub display/speakers replace the GL/PortAudio front end. Component order changes without any observable effect (e.g. swapping two components that share no state) are by construction not distinguishable.")
